@@ -261,6 +261,12 @@ impl From<MeasureCalibrationIdentifier> for CalibrationSource {
     }
 }
 
+/// The deepest chain of nested calibration expansions that is followed before the expansion is
+/// reported as recursive.  A calibration that re-invokes itself with a parameter that changes on
+/// every step (`DEFCAL RX(%t) q: RX(%t+1) q`) never repeats an instruction, so without a bound its
+/// expansion would only end by exhausting the stack.
+const MAX_CALIBRATION_EXPANSION_DEPTH: usize = 256;
+
 /// Replace the qubit variables of a calibration body instruction by the qubits they stand for.
 fn substitute_qubit_variables(
     instruction: &mut Instruction,
@@ -378,7 +384,9 @@ impl Calibrations {
         previous_calibrations: &[Instruction],
         build_source_map: bool,
     ) -> Result<Option<CalibrationExpansionOutput>, ProgramError> {
-        if previous_calibrations.contains(instruction) {
+        if previous_calibrations.contains(instruction)
+            || previous_calibrations.len() >= MAX_CALIBRATION_EXPANSION_DEPTH
+        {
             return Err(ProgramError::RecursiveCalibration(instruction.clone()));
         }
         let expansion_result = match instruction {
